@@ -11,7 +11,15 @@ vars == <<l, bad>>
 SetOf(t) == {t[i] : i \in 1..Len(t)}
 Want(e) == IF e.c.form = "map" THEN RuleKind(SetOf(e.c.keys), e.c.type # "<absent>", e.c.type) ELSE RuleScalar(e.c.s)
 
+\* a row whose command-family keys (or a group's `steps`) hold values their fields cannot take: the step is the kind the
+\* rule says or - reported - an unknown step; never another known kind, whatever other keys it carries
+MalformedOK(e) ==
+    /\ ~e.panic /\ ~e.hard /\ e.nsteps = 1
+    /\ e.kind \in {Want(e).kind, "unknown"}
+    /\ (e.kind = "unknown" => e.warn)
+    /\ e.nfb = e.nunk
 EventOK(e) ==
+    IF "malformed" \in DOMAIN e /\ e.malformed THEN MalformedOK(e) ELSE
     /\ ~e.panic
     /\ ~e.hard                                  \* a well-typed one-step document never hard-fails
     /\ e.nsteps = 1
